@@ -520,20 +520,26 @@ def py_binary(op, rhs, l, r):
     raise Stuck()
 
 
-def py_has_type(v, t):
+def py_has_type(v, t, nested=False):
+    """Does the Python value v inhabit the published type t?  An `unknown` NESTED in a collection type (it comes from an
+    empty collection literal whose element type the checker could not determine, e.g. `{{}, {1.0: "a"}}` is published as
+    FrozenSet[FrozenDict[unknown, unknown]]) carries no information and is inhabited by every value; a top-level
+    `unknown` is not accepted (the checker reports `Cannot infer` there)."""
     t = norm_ty(t) if not isinstance(t, str) else t
     k = v[0]
     if isinstance(t, str):
+        if t == "unknown":
+            return nested
         return (k, t) in (("int", "int"), ("float", "float"), ("bool", "bool"), ("str", "str"), ("str", "fstr"),
                           ("bytes", "bytes"), ("bytes", "fbytes"))
     if t[0] == "tuple":
-        return k == "tuple" and len(v[1]) == len(t) - 1 and all(py_has_type(x, y) for x, y in zip(v[1], t[1:]))
+        return k == "tuple" and len(v[1]) == len(t) - 1 and all(py_has_type(x, y, True) for x, y in zip(v[1], t[1:]))
     if t[0] == "flist":
-        return k == "list" and all(py_has_type(x, t[1]) for x in v[1])
+        return k == "list" and all(py_has_type(x, t[1], True) for x in v[1])
     if t[0] == "fset":
-        return k == "set" and all(py_has_type(x, t[1]) for x in v[1])
+        return k == "set" and all(py_has_type(x, t[1], True) for x in v[1])
     if t[0] == "fdict":
-        return k == "dict" and len(v[1]) % 2 == 0 and all(py_has_type(x, t[1 + i % 2]) for i, x in enumerate(v[1]))
+        return k == "dict" and len(v[1]) % 2 == 0 and all(py_has_type(x, t[1 + i % 2], True) for i, x in enumerate(v[1]))
     return False
 
 
